@@ -26,7 +26,8 @@ package absnfs
 //@ ensures [removed-paths-uncached] {C02} isnil(result) && dir != nil ==> !acHas(s, sanitized(dir.path, name)) && !acHas(s, dir.path) && !dcHas(s, dir.path)
 
 //@ also AbsfsNFS.RenameWithContext
-//@ ensures [renamed-paths-uncached] {C02} isnil(result) && oldDir != nil && newDir != nil ==> !acHas(s, sanitized(oldDir.path, oldName)) && !acHas(s, sanitized(newDir.path, newName)) && !acHas(s, oldDir.path) && !acHas(s, newDir.path) && !dcHas(s, oldDir.path) && !dcHas(s, newDir.path)
+// (C04 too: a cached record that survives the rename makes LOOKUP report the replaced object's type and size)
+//@ ensures [renamed-paths-uncached] {C02, C04} isnil(result) && oldDir != nil && newDir != nil ==> !acHas(s, sanitized(oldDir.path, oldName)) && !acHas(s, sanitized(newDir.path, newName)) && !acHas(s, oldDir.path) && !acHas(s, newDir.path) && !dcHas(s, oldDir.path) && !dcHas(s, newDir.path)
 // a directory that moves takes its subtree along: the caches are emptied before the targeted invalidations
 //@ callassert AttrCache.Invalidate#1 : [directory-move-empties-the-caches] {C02} movesDir ==> len(s.attrCache.cache) == 0 && (s.dirCache != nil ==> len(s.dirCache.entries) == 0)
 //@ callassert absfs.FS.Rename : [kind-known-before-the-move] {C02} true
